@@ -1,7 +1,5 @@
-mod c01;
-mod c02;
-mod space;
+use tgv_syntax::{c01, c02, c14};
 
 fn main() {
-    tgv_core::main_for(&[&c01::C01, &c02::C02]);
+    tgv_core::main_for(&[&c01::C01, &c02::C02, &c14::C14]);
 }
